@@ -654,3 +654,351 @@ def gen_fsm_case(r, run_model, nsteps=None, good_tail=0, cache_ver=None, faults=
     c.meta = {"used": used, "cache_p": set(cache.p), "cache_k": set(cache.k), "cver": cver, "good_tail": good_tail, "good_from": good_from,
               "refresh": refresh, "expire": expire, "retry": retry, "mut": "fsm"}
     return c
+
+
+# ------------------------------------------------------------------------------------------
+# Classes that reach regions the random conversations above practically never enter (round-3 gaps):
+# router-key-heavy synchronisations (hash table resize boundaries), stop/start cycles of one socket, a stop
+# request during any transport call, writes that take time, allocation failures during a reload, one prefix
+# carrying hundreds of records of another source.
+# ------------------------------------------------------------------------------------------
+
+def hashlin_params():
+    """what the generators need to know about the hash table behind the router-key table, read from the tree under
+    test: the initial size exponent (lean/RtrModel/Generated/Constants.lean is regenerated from that tree) and the small
+    integer literals of the sources (fill-factor divisors: the table resizes at bucket_max / d, d spelled in the code)"""
+    import os
+    import re
+    import vlib
+    bit = 6
+    try:
+        src = open(os.path.join(vlib.LEAN, "RtrModel", "Generated", "Constants.lean")).read()
+        m = re.search(r"def TOMMY_HASHLIN_BIT : Nat := (\d+)", src)
+        if m:
+            bit = int(m.group(1))
+    except OSError:
+        pass
+    divs = sorted(d for d in vlib.source_literals()["ints"] if 2 <= d <= 16)
+    return bit, divs or [2, 8]
+
+
+def critical_counts(b, divs):
+    """record counts at which a table of 2^b buckets may change its mind: 2^b / d and its neighbours, for every small
+    literal d of the sources"""
+    M = 1 << b
+    out = set()
+    for d in divs:
+        for e in (-1, 0, 1):
+            if 0 <= M // d + e:
+                out.add(M // d + e)
+    return sorted(out)
+
+
+def seq_key(i, salt=0):
+    """the i-th router key of a series (distinct SKI, ASN and SPKI vary)"""
+    ski = struct.pack(">IIIII", salt & 0xffffffff, i, (i * 2654435761) & 0xffffffff, 0xa5a5a5a5, i ^ 0xffff)
+    spki = bytes([(i + j) & 0xff for j in range(91)])
+    # the table is keyed by the AS number: every key of a series has its own
+    return (((i + 1) * 2654435761 + salt) & 0xffffffff, ski, spki)
+
+
+def shrink_then_grow(counts, bit):
+    """does the sequence of table sizes contain, for some table of M = 2^b > 2^bit buckets: enough records for the table
+    to have M buckets (more than M/4, at most M/2), then a number at which shrinking has started but cannot have finished
+    (between M/16 and M/8, exclusive), then growth beyond M/2 - without the table leaving that size in between?"""
+    for b in range(bit + 1, bit + 12):
+        M = 1 << b
+        st = 0
+        for n in counts:
+            if n > M // 2:
+                if st == 2:
+                    return b
+                st = 0
+            elif n <= M // 16:
+                st = 0
+            elif st == 0 and n > M // 4:
+                st = 1
+            elif st == 1 and M // 16 < n < M // 8:
+                st = 2
+    return None
+
+
+def gen_keyheavy_case(r, b=None, recipe=None, nex=None):
+    """several exchanges against one socket whose router-key set walks over the resize boundaries of the hash table
+    (2^b buckets): grow to a stable table, withdraw until a shrink is under way, grow again past the next boundary, and
+    then touch the keys of the first exchange again (withdrawals that must be found, a re-announcement that must be
+    refused as duplicate).  Every exchange is one `run sync` with show/dump around it."""
+    bit, divs = hashlin_params()
+    b = b if b is not None else bit + 1 + (r.random() < 0.3)
+    M = 1 << b
+    crit = [x for x in critical_counts(b, divs) if x <= M + 4]
+    recipe = recipe or r.choice(["shrink_grow", "shrink_grow", "walk"])
+    if recipe == "shrink_grow":
+        lo, hi = M // 16 + 1, M // 8 - 1
+        targets = [M // 2, r.randrange(lo, hi + 1) if hi >= lo else lo, M // 2 + r.choice([1, 1, 2, 3, 8])]
+    else:
+        targets = [M // 2] + [r.choice(crit + [r.randrange(0, M + 4)]) for _ in range(nex or r.randrange(2, 5))]
+    c = SyncCase()
+    salt = r.getrandbits(32)
+    sess = r.randrange(65536)
+    serial = r.choice([0, 5, 0xfffffffe, r.getrandbits(32)])
+    ops = ["sock 3600 7200 600 %d" % r.choice(MODES)]
+    for i in range(2):
+        k = seq_key(1000000 + i, salt)
+        ops.append("pre key %d %s %s %d" % (k[0], k[1].hex(), k[2].hex(), 1 + i))
+    ops += ["set version 1", "set session %d" % sess, "set serial %d" % serial, "set reqsess 1", "set lastupdate 0",
+            "set state 3", "set hasrecv 0"]
+    cur = []            # keys the socket holds, in order of announcement
+    nexti = 0
+    counts = []
+    first = None
+
+    def exchange(payload):
+        nonlocal serial
+        serial = (serial + 1) & 0xffffffff
+        stream = P.cache_response(1, sess) + b"".join(payload) + P.eod(1, sess, serial)
+        ops.append("tape " + " ".join("rx:" + x.hex() for x in chunk(r, stream, r.choice(["whole", "pdu", "random"]))))
+        ops.extend(["show", "dump", "run sync", "show", "dump"])
+
+    n_oth = 2           # the table counts the records of all sources: the targets are totals
+    for t in targets:
+        t = max(0, t - n_oth)
+        payload = []
+        if t > len(cur):
+            # now and then a withdrawal in the same exchange, so that shrinking and growing steps interleave
+            wd = r.sample(cur, min(len(cur), r.choice([0, 0, 1, 2])))
+            for k in wd:
+                cur.remove(k)
+                payload.append(P.router_key(1, 0, k[1], k[0], k[2]))
+            while len(cur) < t:
+                k = seq_key(nexti, salt)
+                nexti += 1
+                cur.append(k)
+                payload.append(P.router_key(1, 1, k[1], k[0], k[2]))
+        else:
+            keep_first = [k for k in cur if first and k in first]
+            pool = [k for k in cur if k not in keep_first[:4]]          # some keys of the first exchange stay to the end
+            for k in r.sample(pool, min(len(pool), len(cur) - t)):
+                cur.remove(k)
+                payload.append(P.router_key(1, 0, k[1], k[0], k[2]))
+        if r.random() < 0.3:
+            payload.insert(r.randrange(len(payload) + 1), pfx_pdu(1, 1, (4, (len(counts) + 1) << 24, 8, 8, 65001)))
+        if first is None:
+            first = list(cur)
+        counts.append(len(cur) + n_oth)
+        exchange(payload)
+    # touch old keys again: everything the table still holds must be found
+    old = [k for k in cur if k in first] or list(cur)
+    if old:
+        wd = r.sample(old, min(len(old), r.choice([1, 2, len(old)])))
+        for k in wd:
+            cur.remove(k)
+        counts.append(len(cur) + n_oth)
+        exchange([P.router_key(1, 0, k[1], k[0], k[2]) for k in wd])
+    if cur:
+        # a re-announcement of a key the socket holds: a duplicate, the exchange must fail and change nothing
+        k = r.choice(cur)
+        k2 = seq_key(nexti, salt)
+        exchange([P.router_key(1, 1, k2[1], k2[0], k2[2]), P.router_key(1, 1, k[1], k[0], k[2])])
+        counts.append(len(cur) + n_oth)
+    # and withdraw all of them
+    if cur and r.random() < 0.7:
+        exchange([P.router_key(1, 0, k[1], k[0], k[2]) for k in cur])
+        counts.append(n_oth)
+    c.ops = ops
+    c.meta = {"mut": "keyheavy", "counts": counts, "b": b, "recipe": recipe, "stg": shrink_then_grow(counts, bit)}
+    return c
+
+
+def gen_reload_case(r):
+    """a full reload (the socket holds data and has been told to start over: the next set is built in shadow tables)
+    while the shared tables hold records of two other sources in both address families and router keys"""
+    c = SyncCase()
+    sess = r.randrange(65536)
+    own = [(4, (10 + i) << 24, 8, r.choice([8, 24]), 65001) for i in range(r.randrange(1, 4))] + \
+          [(6, (0x2001 << 112) | (i << 96), 32, 48, 65002) for i in range(r.randrange(0, 3))]
+    oth = [((4, (100 + i) << 24, 8, 16, 65001 + i % 2), 1 + i % 2) for i in range(r.randrange(2, 5))] + \
+          [((6, (0x2a00 << 112) | (i << 80), 48, r.choice([48, 64]), 65002), 1 + i % 2) for i in range(r.randrange(2, 6))]
+    if r.random() < 0.5:
+        oth.append(((4, own[0][1], 8, own[0][3], 65001), 2))     # the same prefix as one of the socket's own records
+    ops = ["sock 3600 7200 600 %d" % r.choice(MODES)]
+    for p in own:
+        ops.append("pre pfx %d %0*x %d %d %d 0" % (p[0], 8 if p[0] == 4 else 32, p[1], p[2], p[3], p[4]))
+    for p, s in oth:
+        ops.append("pre pfx %d %0*x %d %d %d %d" % (p[0], 8 if p[0] == 4 else 32, p[1], p[2], p[3], p[4], s))
+    keys = [seq_key(i, 7) for i in range(4)]
+    ops.append("pre key %d %s %s 0" % (keys[0][0], keys[0][1].hex(), keys[0][2].hex()))
+    for i in (1, 2):
+        ops.append("pre key %d %s %s %d" % (keys[i][0], keys[i][1].hex(), keys[i][2].hex(), i))
+    reload_ = r.random() < 0.8
+    ops += ["set version 1", "set session %d" % sess, "set serial 5", "set reqsess %d" % int(reload_), "set lastupdate 900", "set state 3",
+            "set hasrecv 1"]
+    if reload_:
+        newp = [(4, (20 + i) << 24, 8, 8, 65001) for i in range(r.randrange(0, 4))] + \
+               [(6, (0x2002 << 112) | (i << 96), 32, 32, 65001) for i in range(r.randrange(0, 3))] + r.sample(own, r.randrange(0, len(own) + 1))
+        payload = [pfx_pdu(1, 1, p) for p in newp] + [P.router_key(1, 1, keys[3][1], keys[3][0], keys[3][2])] * (r.random() < 0.6)
+    else:
+        payload = [pfx_pdu(1, 1, (4, (30 + i) << 24, 8, 8, 65001)) for i in range(r.randrange(0, 3))] + \
+                  [pfx_pdu(1, 0, p) for p in r.sample(own, r.randrange(0, len(own) + 1))] + \
+                  [pfx_pdu(1, 1, (6, (0x2003 << 112), 32, 32, 65001))] * (r.random() < 0.5)
+    r.shuffle(payload)
+    stream = P.cache_response(1, sess) + b"".join(payload) + P.eod(1, sess, 6)
+    ops.append("tape " + " ".join("rx:" + x.hex() for x in chunk(r, stream, "whole")))
+    c.ops = ops
+    c.meta = {"mut": "reload" if reload_ else "delta", "others_v6": sum(1 for p, s in oth if p[0] == 6)}
+    return c
+
+
+def allocfail_variant(case, k):
+    """the case with the k-th allocation request of the synchronisation refused"""
+    v = SyncCase()
+    v.ops = list(case.ops) + ["allocfail %d" % k, "show", "dump", "run syncaf", "show", "dump"]
+    v.meta = dict(case.meta)
+    v.meta["mut"] = "allocfail:" + case.meta.get("mut", "?")
+    v.meta["k"] = k
+    return v
+
+
+def rand_send_outcomes(r, length, timeout):
+    """a script of write outcomes with time passing inside the calls: partial writes next to clock jumps around the deadline"""
+    evs = []
+    for _ in range(r.randrange(0, 5)):
+        if r.random() < 0.6:
+            evs.append("dt:%d" % r.choice([0, 1, max(0, timeout - 1), max(0, timeout), max(0, timeout) + 1, 59, 60, 61, 100000]))
+        evs.append(r.choice(["part:%d" % r.choice([1, 2, 5, max(1, length - 1), length, length + 3]), "part:1", "all", "all", "err", "block"]))
+    if r.random() < 0.3:
+        evs.append("dt:%d" % r.choice([1, 61]))
+    return evs
+
+
+def gen_sendall_line(r):
+    """one call of tr_send_all: clock, timeout, the bytes of a PDU the client sends, the script of write outcomes"""
+    pdu = r.choice([P.hdr(1, P.RESET_QUERY, 0, 8), P.hdr(0, P.RESET_QUERY, 0, 8), P.hdr(1, P.SERIAL_QUERY, r.randrange(65536), 12) + struct.pack(">I", r.getrandbits(32)),
+                    P.error_report(1, r.randrange(9), bytes(r.getrandbits(8) for _ in range(r.choice([0, 8, 20]))), r.choice([b"", b"txt\0"]))])
+    timeout = r.choice([60, 60, 60, 1, 0, -1, 3600])
+    now = r.choice([0, 1000, 1 << 31, r.randrange(1 << 20)])
+    return "sendall %d %d %s %s" % (now, timeout, pdu.hex(), " ".join(rand_send_outcomes(r, len(pdu), timeout))), pdu
+
+
+def with_send_time(r, case, at=None):
+    """the same case on a link whose writes take time: the `at`-th write call (default: a random early one) blocks past the
+    send deadline and then accepts only part of the data"""
+    import vlib
+    tmo = [x for x in vlib.source_literals()["ints"] if 30 <= x <= 600] or [60]
+    d = r.choice(tmo + [60, 61]) + r.choice([1, 1, 2, 100])
+    at = at if at is not None else r.choice([0, 0, 1, 2])
+    ops = []
+    q = None
+    for o in case.ops:
+        if o.startswith("sendq "):
+            q = o.split()[1:]
+        else:
+            ops.append(o)
+    q = q or []
+    while len(q) < at:
+        q.append("all")
+    q[at:at] = ["dt:%d" % d, "part:%d" % r.choice([1, 3, 5, 7, 11])]
+    i = next(i for i, o in enumerate(ops) if o.startswith("run "))
+    ops.insert(i, "sendq " + " ".join(q))
+    v = SyncCase()
+    v.ops = ops
+    v.meta = dict(case.meta)
+    v.meta["mut"] = "sendtime:" + str(case.meta.get("mut"))
+    v.meta["good_tail"] = 0
+    return v
+
+
+def gen_fsm_restart_case(r, run_model, second_ver=None, nsteps=None):
+    """two runs of the state machine on ONE socket: a conversation, rtr_stop, then rtr_start again without rtr_init and a
+    second conversation (by default with a cache that now speaks `second_ver`).  Both conversations are built reactively
+    by gen_fsm_case; for the second one the model is run on the whole script so far, so it starts from what the first
+    run has left in the socket."""
+    c1 = gen_fsm_case(r, run_model, nsteps=nsteps if nsteps is not None else r.randrange(1, 5), cache_ver=1,
+                      faults=["good"] * 6 + FAULTS)
+    prefix = list(c1.ops)
+    n0 = len(run_model(prefix))
+
+    def run_model2(ops):
+        k = ops.index("show")
+        return run_model(prefix + ops[k + 1:])[n0:]
+    ver2 = second_ver if second_ver is not None else r.choice([0, 0, 1])
+    c2 = gen_fsm_case(r, run_model2, nsteps=r.randrange(1, 4), cache_ver=ver2, faults=["good"] * 8 + FAULTS)
+    k = c2.ops.index("show")
+    c = FsmCase()
+    c.ops = prefix + c2.ops[k + 1:]
+    c.meta = {"mut": "restart", "used": c1.meta["used"] + ["restart"] + c2.meta["used"], "good_tail": 0, "ver2": ver2,
+              "cache_p": c2.meta["cache_p"], "cache_k": c2.meta["cache_k"]}
+    return c
+
+
+def full_answer(r, ver, nrec=3):
+    sess = r.randrange(65536)
+    out = [P.cache_response(ver, sess)] + [pfx_pdu(ver, 1, (4, (50 + i) << 24, 8, 8, 65001)) for i in range(nrec)]
+    if ver == 1 and r.random() < 0.5:
+        k = seq_key(5, 5)
+        out.append(P.router_key(1, 1, k[1], k[0], k[2]))
+    out.append(P.eod(ver, sess, r.getrandbits(32)))
+    return b"".join(out)
+
+
+def simple_conversation(r, ver=1, keys=True):
+    """a short correct conversation, built without the model: full answer, Serial Notify, delta answer, silence"""
+    c = FsmCase()
+    cache = Cache(r, ver)
+    ops = ["sock 3600 7200 600 %d" % r.choice(MODES)]
+    p = rand_prefix(r, cache.ppool)
+    ops.append("pre pfx %d %0*x %d %d %d 1" % (p[0], 8 if p[0] == 4 else 32, p[1], p[2], p[3], p[4]))
+    ops.append("show")
+    tape = ["rx:" + cache.full(ver).hex()]
+    s0 = cache.serial
+    cache.mutate()
+    tape.append("rx:" + P.serial_notify(ver, cache.sess, cache.serial).hex())
+    tape.append("rx:" + cache.answer({"type": P.SERIAL_QUERY, "f16": cache.sess, "sn": s0, "raw": b""}, ver).hex())
+    tape.append("block")
+    ops.append("tape " + " ".join(tape))
+    ops += ["run fsm", "show", "dump", "run stop", "show", "dump"]
+    c.ops = ops
+    c.meta = {"mut": "fsm", "used": ["simple"], "good_tail": 0}
+    return c
+
+
+def livestop_variant(r, base, k):
+    """the conversation of `base` with rtr_stop() called during its k-th transport call, then the same socket started
+    again against a cache that answers the first query with a complete data set"""
+    i = base.ops.index("run fsm")
+    ops = []
+    for o in base.ops[:i]:
+        if o.startswith("tape "):
+            o = " ".join(w for w in o.split() if w != "hang")
+        ops.append(o)
+    ops += ["stopat %d" % k, "run fsm", "show", "dump", "run stop", "show", "dump",
+            "tape rx:" + full_answer(r, r.choice([0, 1, 1])).hex(), "run fsm", "show", "dump", "run stop", "show", "dump"]
+    v = FsmCase()
+    v.ops = ops
+    v.meta = {"mut": "livestop", "used": ["livestop"], "good_tail": 0, "k": k}
+    return v
+
+
+def gen_foreign_node_case(r, n, expiry):
+    """another source holds n records on ONE prefix (one trie node), the socket under test learns a record on the same
+    prefix; then the socket is stopped, or its data expires during an outage"""
+    c = FsmCase()
+    ops = ["sock 3600 7200 600 1"]
+    addr = r.choice([0x0a000000, 0xc0000000])
+    for i in range(n):
+        ops.append("pre pfx 4 %08x 8 %d %d 1" % (addr, 8 + i % 25, 64512 + i))
+    ops.append("pre pfx 4 %08x 16 16 65001 2" % (addr | 0x10000))
+    ops.append("show")
+    sess = r.randrange(65536)
+    ans = P.cache_response(1, sess) + P.ipv4(1, 1, 8, 8, addr, 65001) + P.ipv4(1, 1, 8, 32, addr, 65002) + \
+        P.ipv4(1, 1, 24, 24, addr | 0x100, 65001) + P.eod(1, sess, 7)
+    tape = ["rx:" + x.hex() for x in chunk(r, ans, "pdu")]
+    if expiry:
+        tape += ["dt:%d" % (7200 + r.choice([1, 100])), "err", "block"]
+    else:
+        tape += ["hang"] if r.random() < 0.5 else ["block"]
+    ops.append("tape " + " ".join(tape))
+    ops += ["run fsm", "show", "dump", "run stop", "show", "dump"]
+    c.ops = ops
+    c.meta = {"mut": "foreign-node", "used": ["foreign-node"], "good_tail": 0, "n": n}
+    return c
